@@ -253,6 +253,21 @@ class Program:
             if len(concrete) == 1:
                 self.assoc_output[trait] = concrete.pop()
 
+    def assoc_type(self, trait, selfty, name):
+        """`type <name> = X;` inside `impl <trait> for <selfty>` (from the source)"""
+        for root in ("src", "fpdec-core/src"):
+            d = os.path.join(self.repo, root)
+            for dp, _, fns in os.walk(d):
+                for fn in fns:
+                    if not fn.endswith(".rs"):
+                        continue
+                    txt = open(os.path.join(dp, fn)).read()
+                    for m in re.finditer(r"impl\s+%s\s+for\s+%s\s*\{(.*?)\n\}" % (re.escape(trait), re.escape(selfty)), txt, re.S):
+                        mm = re.search(r"type\s+%s\s*=\s*([^;]+);" % re.escape(name), m.group(1))
+                        if mm:
+                            return mm.group(1).strip()
+        return None
+
     def resolve_projection(self, ty):
         """`<A as Trait<B>>::Output` -> concrete type when the table knows the trait"""
         prev = None
@@ -437,6 +452,10 @@ class State:
     def constraints(self):
         return self.defs + self.pc
 
+    def mark_inputs(self):
+        """remember the input assumptions (everything asserted so far): loop cuts reset the constraint store to them"""
+        self.tags["base"] = (list(self.defs), dict(self.true_ids), dict(self.false_ids), list(self.groups))
+
     def define(self, fresh_vars, constraints):
         """definition of fresh variables (always satisfiable); may be dropped from a VC when unused"""
         cs = tuple(constraints)
@@ -582,6 +601,8 @@ class Executor:
         self.contracts = {}     # last-seg name -> python callable(ex, st, args, fr) -> value | None
         self.max_paths = 200000
         self.encoded_fns = set()
+        self.cuts = {}          # last-seg fn name -> Cut (loop invariant cut points)
+        self.cut_log = []
         self.lemma_hooks = {}   # last-seg fn name -> callback(ex, st, frame) -> [(name, formula)]
         self.lemma_log = []
         self.lemma_timeout_ms = 120000
@@ -680,8 +701,12 @@ class Executor:
             cands2 = self._disambiguate_const(text, cands, fr)
             if cands2:
                 cands = cands2
+        sub_for_const = None
+        mself = re.match(r"^<(\w+) as [\w:]+>::\w+$", text)
+        if mself:
+            sub_for_const = {"Self": mself.group(1)}
         if len(cands) == 1:
-            return self.const_value(st, cands[0])
+            return self.const_value(st, cands[0], sub_for_const)
         if len(cands) > 1:
             vals = [self.const_value(st, c) for c in cands]
             if all(_same_const(vals[0], v) for v in vals[1:]):
@@ -735,14 +760,14 @@ class Executor:
                     out.append(c)
         return out
 
-    def const_value(self, st, cdef):
-        key = cdef.name + "@" + cdef.generic
+    def const_value(self, st, cdef, subst=None):
+        key = cdef.name + "@" + cdef.generic + "@" + repr(sorted((subst or {}).items()))
         if key in self.prog._const_cache:
             return self.prog._const_cache[key]
         sub = Executor(self.prog, mode_term=self.mode_term)
         sub.contracts = {}
         s0 = State()
-        fr = Frame(0, cdef)
+        fr = Frame(0, cdef, dict(subst or {}))
         s0.next_uid = 1
         s0.frames.append(fr)
         outs = sub.explore(s0)
@@ -985,6 +1010,12 @@ class Executor:
             return t, 0
         if is_conc(t):
             return t >> k, t & ((1 << k) - 1)
+        sp = st.tags.get(("split", t.get_id()))
+        if sp is not None and k >= sp[1]:
+            # t = hi * 2^lo_bits + lo with 0 <= lo < 2^lo_bits and hi concrete (registered by the driver)
+            _, lo_bits, hi, lo = sp
+            d = k - lo_bits
+            return hi >> d, T.add(T.mul(hi & ((1 << d) - 1), 1 << lo_bits), lo)
         key = ("p2", t.get_id(), k)
         if key in st.divcache:
             return st.divcache[key][:2]
@@ -1126,7 +1157,10 @@ class Executor:
         if op == "BitOr":
             for x, y in ((a, b), (b, a)):
                 yub = self.upper_bits(st, y)
-                if yub is not None and x.tz >= yub:
+                xtz = x.tz
+                if is_conc(x.t) and x.t > 0:
+                    xtz = (x.t & -x.t).bit_length() - 1
+                if yub is not None and xtz >= yub:
                     xub = self.upper_bits(st, x)
                     return IV(T.add(x.t, y.t), ty, tz=min(x.tz, y.tz) if False else 0,
                               ub=max(xub, yub) if xub is not None else None)
@@ -1341,6 +1375,110 @@ class Executor:
         outs = self.explore(st0)
         return outs
 
+    def loop_headers(self, fn):
+        succ = {bb: _successors(parse_terminator(term)) for bb, (stmts, term) in fn.blocks.items()}
+        color, heads = {}, []
+
+        def dfs(u):
+            color[u] = 1
+            for v in succ.get(u, ()):
+                if color.get(v) == 1:
+                    if v not in heads:
+                        heads.append(v)
+                elif v not in color:
+                    dfs(v)
+            color[u] = 2
+        dfs("bb0")
+        return heads
+
+    def cut_block(self, fn, cut):
+        if cut.bb is None:
+            heads = self.loop_headers(fn)
+            if len(heads) != 1:
+                raise Unsupported("cut: %s has %d loop headers" % (fn.name, len(heads)))
+            cut.bb = heads[0]
+        return cut.bb
+
+    def do_cut(self, st, fr, cut, visit):
+        """loop cut: prove the invariant for the current state, then forget the history and continue from an
+        arbitrary state satisfying it (sound over-approximation).  mode 'unroll': at every visit, with the visit
+        index concrete; mode 'inductive': first visit = base case + havoc, second visit = preservation, path ends."""
+        def cur(name, which=-1):
+            return self.local_by_name(st, fr, name, which)
+        if "base" not in st.tags:
+            raise Unsupported("cut without marked inputs")
+        try:
+            vals = {n: cur(n) for n in cut.havoc}
+            consts = {n: cur(n) for n in cut.keep}
+        except Exception as e:
+            self.cut_log.append(("cut skipped: %s" % e, visit))
+            return None
+        allv = dict(consts)
+        allv.update(vals)
+        formulas = cut.invariant({k: v.t for k, v in allv.items()}, visit, st)
+        ok = True
+        for name, fml in formulas:
+            if isinstance(fml, bool):
+                if fml:
+                    continue
+                ok = False
+                break
+            s = z3.Solver()
+            s.set("timeout", self.lemma_timeout_ms)
+            for c in st.pruned_constraints(fml):
+                s.add(c)
+            s.add(z3.Not(fml))
+            t0 = time.time()
+            r = s.check()
+            self.count("cut_queries")
+            self.cut_log.append((name, visit, str(r), round(time.time() - t0, 2)))
+            if r != z3.unsat:
+                ok = False
+                st.tags.setdefault("cut_failed", []).append((name, visit, str(r)))
+                break
+        if cut.mode == "inductive" and visit >= 1:
+            # preservation step done (or failed): this path ends here
+            if not ok:
+                return Outcome("panic", None, st, "CUT: invariant not preserved: %s" % (st.tags.get("cut_failed"),))
+            if cut.variant is not None:
+                pass
+            return Outcome("cutclosed", None, st, "invariant preserved")
+        if not ok:
+            if cut.mode == "inductive":
+                return Outcome("panic", None, st, "CUT: invariant does not hold on entry: %s" % (st.tags.get("cut_failed"),))
+            return None          # fall back to plain unrolling for this path
+        # havoc
+        base_defs, base_true, base_false, base_groups = st.tags["base"]
+        st.defs = list(base_defs)
+        st.pc = []
+        st.true_ids = dict(base_true)
+        st.false_ids = dict(base_false)
+        st.groups = list(base_groups)
+        st.divcache = {}
+        st.divlog = []
+        st.conc = {}
+        st.tags["feas_unknowns"] = 0
+        newvals = dict((k, v.t) for k, v in consts.items())
+        for n, v in vals.items():
+            fv = T.fresh_int("h_" + n)
+            lo, hi = ty_range(v.ty)
+            st.defs.append(z3.And(fv >= lo, fv <= hi))
+            newvals[n] = fv
+            loc = fr.fn.debug[n][-1]
+            old = fr.locals[loc]
+            if isinstance(old, RefV):
+                self.write_ref(st, old, IV(fv, v.ty))
+            else:
+                fr.locals[loc] = IV(fv, v.ty)
+        for name, fml in cut.invariant(newvals, visit, st):
+            if not isinstance(fml, bool):
+                st.defs.append(fml)
+        st.tags["cut_visits"] = st.tags.get("cut_visits", 0) + 1
+        if cut.mode == "inductive":
+            st.tags["cut_pre"] = dict(newvals)
+        self.count("cuts")
+        return None
+
     def apply_lemmas(self, st, hook):
         """prove intermediate lemmas at a merge point and add the proven ones as assumptions"""
         fr = st.frames[-1]
@@ -1513,6 +1651,11 @@ class Executor:
                     return None
                 n = fr.visits.get(fr.bb, 0) + 1
                 fr.visits[fr.bb] = n
+                cut = self.cuts.get(Program._last_seg(fn.name)) if self.cuts else None
+                if cut is not None and fr.bb == self.cut_block(fn, cut):
+                    r = self.do_cut(st, fr, cut, n - 1)
+                    if r is not None:
+                        return r
                 if n > self.unwind:
                     return Outcome("panic", None, st, "UNWIND: loop bound %d exceeded in %s %s" % (self.unwind, fn.name, fr.bb))
             try:
@@ -1723,8 +1866,10 @@ class Executor:
             r = self.contracts[last](self, st, fr, callee_s, args)
             if r is not NotImplemented:
                 return self._deliver(st, fr, dest, target, r)
-        # local definitions
-        f = self.resolve_local(fr, callee_s, last, argops, dest)
+        # local definitions (never for paths into core / std / alloc)
+        f = None
+        if not re.match(r"^(core|std|alloc)::", callee_s):
+            f = self.resolve_local(fr, callee_s, last, argops, dest)
         if f is not None:
             fdef, subst = f
             nf = Frame(st.next_uid, fdef, subst)
@@ -1859,6 +2004,19 @@ class Executor:
             if crate.replace("_", "-") == f.generic or crate == f.generic.replace("-", "_"):
                 out.append((f, s))
         return out
+
+
+class Cut:
+    """loop-invariant cut: havoc = debug names of the loop-carried integer variables, keep = names of variables that are
+    read but not modified, invariant(values: name -> term, visit index, state) -> [(label, formula)]"""
+
+    def __init__(self, havoc, keep, invariant, mode="unroll", bb=None, variant=None):
+        self.havoc = list(havoc)
+        self.keep = list(keep)
+        self.invariant = invariant
+        self.mode = mode
+        self.bb = bb
+        self.variant = variant
 
 
 class _Alts:
